@@ -13,6 +13,7 @@
    (within min(target,capacity) for partial decoding). *)
 From Coq Require Import ZArith List Lia Bool.
 From LZ4V Require Import Gen.Consts Model.Mem Model.Dec Model.DecApi Proofs.DecSafe Proofs.DecApiSafe.
+From LZ4V Require Import Model.DecStream Proofs.DecStreamSafe.
 Import ListNotations.
 Local Open Scope Z_scope.
 
@@ -61,3 +62,35 @@ Example C02_nonvacuous :
     = (14, true, [97; 98; 97; 98; 97; 98; 97; 98; 97; 99; 100; 101; 102; 103])
   /\ (let '(r, m, ok) := decompress_safe true (mem_of_list 0 src) 11 13 empty in (r <? 0, ok)) = (true, true).
 Proof. vm_compute. split; reflexivity. Qed.
+
+(* The streaming decoder: one LZ4_decompress_safe_continue call in whichever mode the LZ4_streamDecode_t
+   bookkeeping selects (first call / rolling prefix with the 64 KB-1 threshold / prefix + external dictionary /
+   prefix turned into external dictionary after a jump), for ANY input bytes, destination address and capacity:
+   the access flag stays true (every load and store inside the source block, [dest, dest+cap), the prefix bytes the
+   bookkeeping accounts for - at least 65535 of them when withPrefix64k is selected - and the external dictionary),
+   the result is negative or <= cap, and the bookkeeping keeps non-negative sizes. *)
+Theorem C02_continue_safe :
+  forall fastloop am st srcm srcSize dest cap,
+    src_bytes srcm -> 0 <= srcSize -> sd_ok st ->
+    let '(r, am', st', ok) := decompress_safe_continue fastloop am st srcm srcSize dest cap in
+    ok = true /\ (r < 0 \/ 0 <= r <= cap) /\ sd_ok st'.
+Proof. exact decompress_safe_continue_safe. Qed.
+Print Assumptions C02_continue_safe.
+
+(* ... and therefore any session of LZ4_setStreamDecode / LZ4_decompress_safe_continue calls, whatever the
+   blocks, addresses and capacities (the conjunction of all access flags is true). *)
+Theorem C02_stream_session_safe :
+  forall fastloop calls am st,
+    sd_ok st -> Forall sdcall_ok calls ->
+    let '(_, st', ok) := run_sd fastloop am st calls in ok = true /\ sd_ok st'.
+Proof. exact stream_session_safe. Qed.
+Print Assumptions C02_stream_session_safe.
+
+Example C02_stream_nonvacuous :
+  let B1 := [35; 97; 98; 2; 0; 80; 99; 100; 101; 102; 103] in
+  let B2 := [10; 14; 0; 80; 49; 50; 51; 52; 53] in
+  let calls := [SetSD 0 0; Cont (mem_of_list 0 B1) 11 1000 14; Cont (mem_of_list 0 B2) 9 1014 19;
+                Cont (mem_of_list 0 [255; 255; 255]) 3 5000 7] in
+  let '(am, st, ok) := run_sd true empty (setStreamDecode 0 0) calls in
+  (ok, sd_prefixEnd st, sd_prefixSize st) = (true, 1033, 33).
+Proof. vm_compute. reflexivity. Qed.
